@@ -183,6 +183,8 @@ def decode_rules(ctx, w):
             ("%d;2;r;g;b" % base, [[base], [2], [Rr], [Gg], [Bb], [SENT]], (op, ("RGB", ("u8", "r"), ("u8", "g"), ("u8", "b"))), 1),
             ("%d;5;i" % base, [[base], [5], [Ii], [SENT]], (op, ("Indexed", ("u8", "i"))), 1),
         ]
+        # ... and the same forms as the LAST thing in the sequence (nothing follows)
+        cases += [(nm + " (last)", ps[:-1], wt, 0) for nm, ps, wt, lf in list(cases)]
         for name, params, want, left in cases:
             try:
                 r, rest, it = ev.run(params)
